@@ -588,6 +588,17 @@ fn gen_data(r: &mut Xo, n: usize, p: usize, f32m: bool) -> (Vec<Vec<f64>>, &'sta
             }
         }
     }
+    // sometimes mirror values at random: lattices become symmetric about zero (sign-coded columns, box centres and
+    // centroids that are exactly 0.0, coordinates that cancel in sums)
+    if r.chance(0.15) {
+        for row in data.iter_mut() {
+            for v in row.iter_mut() {
+                if r.chance(0.5) {
+                    *v = -*v;
+                }
+            }
+        }
+    }
     // sometimes one column is constant (a box that is flat in that dimension at every level of the tree)
     if p > 1 && r.chance(0.1) {
         let col = r.below(p as u64) as usize;
